@@ -3,6 +3,13 @@
 from vf import core
 
 THM = ["YaraModel.Thm.C20"]
+MANIFEST = dict(
+    technique="Lean 4 refinement proof (state machine = history-based 3-level environment spec, all op histories) + op-sequence correspondence against the real API",
+    text="proof: Thm/C20.lean proves for every operation history that the table-based model equals the history-based three-level specification "
+         "(most specific value, snapshot at creation, isolation, rejected definitions change nothing, result codes); the model is tied to the code by "
+         "running random define/create/scan sequences through the real compiler/rules/scanner API and the compiled Lean model and diffing every op's result.",
+    design_ref="DESIGN.md §5 C20",
+    note=core.TB + "Assumes small integer/dyadic values (no int64 wrap, no IEEE rounding); a variable is observed through probe conditions only.")
 NAMES = ["x", "y", "z", "w"]
 VALS = {"i": ["-1", "0", "1", "2", "7", "4"], "b": ["0", "1", "5"], "f": ["-1", "0", "1", "3", "4"],
         "s": ["-", "61", "6162", "6261", "616263", "42", "63"]}
